@@ -331,7 +331,12 @@ def cfg_from_params(tpl, p):
         eps.append(dict(start=0.0 if e == 0 else float(p[f't{e}']),
                         sizes={a: float(p[f'N{e}_{a}']) for a in names},
                         mig={(a, b): float(p[f'm{e}_{a}_{b}']) for a in names for b in names if a != b}))
-    cfg = dict(n={a: int(tpl['n'][a]) for a in names}, model=tuple(tpl['model']), epochs=eps, loci=tpl.get('loci', 1))
+    model = tuple(tpl['model'])
+    if model[0] == 'beta' and 'alpha' in p:
+        model = ('beta', float(p['alpha'])) + model[2:]
+    if model[0] == 'dirac' and 'psi' in p:
+        model = ('dirac', float(p['psi']), float(p['c'])) + model[3:]
+    cfg = dict(n={a: int(tpl['n'][a]) for a in names}, model=model, epochs=eps, loci=tpl.get('loci', 1))
     if cfg['loci'] == 2:
         cfg['r'] = float(p.get('r', tpl['r'])); cfg['n_unl'] = tpl['n_unl']
     if p.get('T') is not None:
@@ -362,7 +367,13 @@ def rand_template(rng, quick):
         tpl['r'] = cfg['r']; tpl['n_unl'] = cfg['n_unl']
         p0 = params_from_cfg(cfg); p0['r'] = float(cfg['r'])      # the recombination rate is a free parameter too
         return tpl, p0
-    return tpl, params_from_cfg(cfg)
+    p0 = params_from_cfg(cfg)
+    # the parameters of the coalescent MODEL are parameters of the inference too
+    if cfg['model'][0] == 'beta':
+        p0['alpha'] = float(cfg['model'][1])
+    if cfg['model'][0] == 'dirac':
+        p0['psi'], p0['c'] = float(cfg['model'][1]), float(cfg['model'][2])
+    return tpl, p0
 
 
 def mutate_params(rng, tpl, p, earlier):
@@ -373,6 +384,16 @@ def mutate_params(rng, tpl, p, earlier):
         return dict(rng.choice(earlier))                        # exactly an earlier parameter set
     what = rng.choice(['mig', 'mig', 'size', 'size', 'time', 'T', 'all']) if len(names) > 1 else \
         rng.choice(['size', 'size', 'time', 'T', 'all'])
+    mk = [k for k in ('alpha', 'psi', 'c') if k in p]
+    if mk and rng.random() < 0.4:
+        # only a model parameter differs from an earlier parameter set: by a hair (far below any closeness tolerance) or clearly
+        k = rng.choice(mk)
+        if rng.random() < 0.5:
+            q[k] = float(p[k]) * (1 + rng.choice([-1, 1]) * 2.0 ** -rng.choice([18, 22, 26]))
+        else:
+            q[k] = {'alpha': rng.choice([1.25, 1.5, 1.75]), 'psi': rng.choice([0.25, 0.5, 0.75]), 'c': rng.choice([0.5, 1.0, 3.0])}[k]
+        if q[k] != p[k] and rng.random() < 0.7:
+            return q
     if tpl.get('loci', 1) == 2 and rng.random() < 0.5:
         # only the recombination rate differs from an earlier parameter set
         q['r'] = rng.choice([x for x in (0.0, 0.125, 0.5, 1.0, 3.0, 8.0) if x != p.get('r')])
